@@ -4,9 +4,10 @@ Correspondence: the text emitted by lean/QipVerif/Model/QasmExport.lean (driver 
 compared CHARACTER BY CHARACTER with circuit_to_qasm_str / save_qasm / print_qasm.
 Oracle (independent of the model): props/qasm_std.py (strict OpenQASM 2.0 front end written from
 the paper, dense evaluation of the standard's semantics) + re-import with the library's reader."""
-import contextlib, io, itertools, json, math, os, tempfile, time, warnings
+import ast, contextlib, io, itertools, json, math, os, tempfile, time, warnings
 import numpy as np
 
+from vlib import paths
 from vlib.core import PropertyCheck
 from props import qasm_tables, qasm_std
 
@@ -27,8 +28,16 @@ NONEXP_SHAPE = {"ISWAP": (0, 2, None), "SQRTSWAP": (0, 2, None), "SQRTISWAP": (0
                 "GLOBALPHASE": (0, 0, "s"), "PHASEGATE": (0, 1, "s"), "RZX": (0, 2, "s"), "IDLE": (0, 1, None),
                 "mygate": (0, 1, None)}
 
-SPECIAL_SCALARS = [0, 0.0, -0.0, 1, -3, 0.5, -0.25, math.pi, -math.pi / 2, 1e-20, 5e-324, 1.5e-07, -2.5e-300,
-                   1e20, 1.2345e+30, -7.5e+250, 1e-05, 123456789.125]
+SPECIAL_SCALARS = [0, 0.0, -0.0, 1, -3, 0.5, -0.25, math.pi, -math.pi / 2, 1e-20, -1e-20, 5e-324, -5e-324, 1.5e-07,
+                   -2.5e-300, 1e16, 1e20, -1e20, 1.2345e+30, -7.5e+250, 1e-05, 123456789.125]
+# values Python prints with an exponent and WITHOUT a decimal point (`1e-20`): not a `real` of OpenQASM 2.0 unless
+# `_qasm_str` prints them with `_qasm_real` (fix C10-3)
+BARE_EXPONENT = [1e-20, -1e-20, 5e-324, 1e16, 1e20]
+# parameter TEXTS (string-valued `arg_value`): `_qasm_real` is `str`, `partition("e")`, `lstrip("-")`, `isdigit` — the
+# model's `padExp` has to agree on every text, not only on numbers
+PARAM_TEXTS = ["1e5", "-1e5", "--1e5", "e5", "-e5", "-", "", "1e", "-1e", "12e+5e7", "1.e5", ".5e3", "1.5e3", "1E5", "abc",
+               "theta", "1e-5e", "0e0", "-0e0", "00e1", "1 e5", "1e 5", "e", "ee", "1ee5", "3", "-3", "0.0", "pi/2", "1e-20",
+               "-1e-20", "1.0e-20", "1-e5", "1-2e5", "-1-e5", "inf", "-inf", "nan"]
 
 
 def _lib():
@@ -45,8 +54,12 @@ def py_value(a):
         return None
     if "s" in a:
         v = a["s"]
+        if a.get("np") == "f32":
+            return np.float32(v)
         return np.float64(v) if a.get("np") else v
     vals = a["v"]
+    if a.get("np") == "f32" and a["k"] in ("list", "tuple"):
+        vals = [np.float32(x) for x in vals]
     if a["k"] == "list":
         return list(vals)
     if a["k"] == "tuple":
@@ -79,13 +92,57 @@ def enc_idx(l):
     return "N" if l is None else "L" + ".".join(str(int(i)) for i in l)
 
 
+_PRINT = {}
+
+
+def print_primitives():
+    """Which Python primitive turns a parameter into text in `_qasm_str` of the tree under verification, read from the
+    source with `ast`: (for a scalar, for an element of a list / tuple / ndarray), each "str" (`str(x)`) or "format"
+    (`"{}".format(x)`, also when the object itself is put into the format string).  A parameter passed to `_qasm_real`
+    gets the primitive of the first statement of `_qasm_real`.  The two texts are the same for int, float and
+    numpy.float64 and differ for numpy.float32 (`'1e-20'` / `'9.999999682655225e-21'`)."""
+    key = paths.REPO
+    if key not in _PRINT:
+        scalar, elem = "format", "str"
+        try:
+            tree = ast.parse(open(os.path.join(paths.REPO, "src", "qutip_qip", "qasm.py")).read())
+            real = "str"
+            for f in ast.walk(tree):
+                if isinstance(f, ast.FunctionDef) and f.name == "_qasm_real":
+                    for st in f.body:
+                        if isinstance(st, ast.Assign) and isinstance(st.value, ast.Call):
+                            fn = st.value.func
+                            if isinstance(fn, ast.Attribute) and fn.attr == "format":
+                                real = "format"
+                            break
+            for f in ast.walk(tree):
+                if isinstance(f, ast.FunctionDef) and f.name == "_qasm_str":
+                    for n in ast.walk(f):
+                        if isinstance(n, ast.Call) and isinstance(n.func, ast.Name) and len(n.args) == 1 \
+                                and isinstance(n.args[0], ast.Name):
+                            prim = real if n.func.id == "_qasm_real" else "str" if n.func.id == "str" else None
+                            if prim and n.args[0].id == "q_args":
+                                scalar = prim
+                            elif prim and n.args[0].id == "arg":
+                                elem = prim
+        except (OSError, SyntaxError):
+            pass
+        _PRINT[key] = (scalar, elem)
+    return _PRINT[key]
+
+
+def to_text(v, prim):
+    return str(v) if prim == "str" else "{}".format(v)
+
+
 def enc_arg(a):
     v = py_value(a)
     if v is None:
         return "N"
+    scalar, elem = print_primitives()
     if isinstance(v, (list, tuple, np.ndarray)):
-        return "Q%s/%s/%s" % (type(v).__name__, hx(str(v)), ",".join(hx(str(x)) for x in v))
-    return "S" + hx(str(v))
+        return "Q%s/%s/%s" % (type(v).__name__, hx(to_text(v, scalar)), ",".join(hx(to_text(x, elem)) for x in v))
+    return "S" + hx(to_text(v, scalar))
 
 
 def enc_circuit(spec):
@@ -221,7 +278,7 @@ def in_class(spec):
         a = op["a"]
         if ps is None and a is not None:
             return False
-        if ps == "s" and not (a is not None and "s" in a and math.isfinite(a["s"])):
+        if ps == "s" and not (a is not None and "s" in a and not isinstance(a["s"], str) and math.isfinite(a["s"])):
             return False
         if ps == "v3" and not (a is not None and "v" in a and len(a["v"]) == 3 and all(map(math.isfinite, a["v"]))):
             return False
@@ -335,6 +392,8 @@ class C10(PropertyCheck):
     drivers = ["drv_qasm"]
     theorems = [
         "QipVerif.C10.export_valid_partial",
+        "QipVerif.C10.export_valid_pynum_partial",
+        "QipVerif.C10.export_den_pynum_partial",
         "QipVerif.C10.export_refuses",
         "QipVerif.C10.export_refuses_classical",
         "QipVerif.C10.definitions_sound",
@@ -344,6 +403,7 @@ class C10(PropertyCheck):
         "QipVerif.C10.base_names_are_qelib1",
         "QipVerif.C10.export_measure_counterexample",
         "QipVerif.C10.export_exponent_counterexample",
+        "QipVerif.C10.export_exponent_repaired",
     ]
     level_text = ("Lean 4 theorems about a character-level model of the exporter, for every circuit (any size, any length) of "
                   "exportable gates with well-formed controls/targets/parameters: the emitted text is accepted line by line "
@@ -354,22 +414,33 @@ class C10(PropertyCheck):
                   "definition the importer model of C04 re-imports the text to a gate list with the same unitary up to one "
                   "global phase (roundtrip_den_partial); every auxiliary gate definition the "
                   "exporter emits denotes the documented matrix up to one global phase (matrix identities over C); circuits "
-                  "with a non-exportable gate are refused. Partial: measurements (exported without ';') and parameters "
-                  "printed without a decimal point (1e-20) are excluded and proved to be counter-examples. The model is tied "
+                  "with a non-exportable gate are refused. The model follows the tree (flag exportPadsExponent regenerated "
+                  "from the source): where _qasm_str prints its parameters with _qasm_real (fix C10-3), the printed text of "
+                  "every finite int/float Python can print (1e-20 -> 1.0e-20) is proved to be one numeric token of the "
+                  "standard with the same real value, so the class of export_valid_pynum_partial / export_den_pynum_partial "
+                  "has no condition on the numbers' texts; on a tree without _qasm_real the class requires every printed "
+                  "parameter to be a numeric token and rx(1e-20) is proved to be a counter-example. Partial on both trees: "
+                  "measurements (exported without ';') are excluded and proved to be a counter-example. The model is tied "
                   "to the code by regenerated tables and a character-exact correspondence.")
     level_note = ("Trusted: Lean kernel; the OpenQASM 2.0 grammar/semantics and qelib1.inc as transcribed in "
-                  "Model/QasmSpec.lean (cross-checked against an independent Python front end); Python's str() of numbers; "
-                  "the documented gate matrices restated in Lemmas/QasmDen.lean; the harness.")
-    technique = ("Lean 4 proof (string-level model of the exporter, strict recogniser and expansion semantics of "
-                 "OpenQASM 2.0 in Lean, matrix identities over C for the emitted gate definitions) + regenerated "
-                 "tables + character-exact model/implementation correspondence")
+                  "Model/QasmSpec.lean (cross-checked against an independent Python front end); Python's str() / format() of "
+                  "numbers (the theorem about _qasm_real is about every text of the shape digits[.digits][e[+-]digits], the "
+                  "shape of str(int) and repr(float) of finite values); the documented gate matrices restated in "
+                  "Lemmas/QasmDen.lean; the harness.")
+    technique = ("Lean 4 proof (string-level model of the exporter incl. _qasm_real, strict recogniser and expansion "
+                 "semantics of OpenQASM 2.0 in Lean, lexer-level proof that padded numerals are tokens, matrix identities "
+                 "over C for the emitted gate definitions) + regenerated tables / model variant read from the source "
+                 "+ character-exact model/implementation correspondence")
     trusted_base = [
         "Lean 4.33 kernel; axioms propext, Classical.choice, Quot.sound",
         "OpenQASM 2.0 semantics as written in Model/QasmSpec.lean from the language paper (U = Rz(phi)Ry(theta)Rz(lambda), "
         "CX, qelib1.inc bodies transcribed by hand), cross-checked on every run against the independent Python front end "
         "props/qasm_std.py",
-        "Python's str() of ints/floats (passed to the model as text by the harness)",
-        "py/props/qasm_tables.py (AST extraction of name maps, definition strings, format strings)",
+        "Python's conversion of ints/floats to text — str(), or '{}'.format() for a scalar on a tree without _qasm_real; the "
+        "harness reads from the source which one the tree uses and passes the text to the model — and that this text has "
+        "the shape `isPyOut` (digits | digits.digits*[e[+-]digits] | digits e[+-]digits) for finite ints/floats",
+        "py/props/qasm_tables.py (AST extraction of name maps, definition strings, format strings, the literal bodies of "
+        "_qasm_str's printing branch and of _qasm_real)",
         "py/props/c10.py (harness, exception classes mapped to {notImpl, attr, type, index, value})",
     ]
     assumptions = ["documented matrices of the library gates as restated in Lemmas/QasmMat.lean (C09 proves them for the code)"]
@@ -460,14 +531,20 @@ class C10(PropertyCheck):
                 if ps is None:
                     args = [None]
                 elif ps == "s":
-                    args = [{"s": v, "np": False} for v in SPECIAL_SCALARS] + [{"s": 0.0, "np": True}, {"s": 2.5, "np": True}]
+                    args = [{"s": v, "np": False} for v in SPECIAL_SCALARS] + [{"s": 0.0, "np": True}, {"s": 2.5, "np": True}] + \
+                        [{"s": v, "np": True} for v in BARE_EXPONENT] + \
+                        [{"s": v, "np": "f32"} for v in (0.0, 2.5, 1e-20, -1e-20)]
                 else:
                     args = []
                     for kind in ("list", "tuple", "ndarray"):
                         args.append({"k": kind, "v": [0.1, 0.2, 0.3]})
                         args.append({"k": kind, "v": [0.0, 0.0, 0.0]})
                         args.append({"k": kind, "v": [-1e-20, 1e20, float(math.pi)]})
+                        args.append({"k": kind, "v": [1e-20, -5e-324, 1e16]})
+                        args.append({"k": kind, "v": [1.5e-07, -1e20, 5e-324]})
                     args.append({"k": "list", "v": [0, 1, -2]})
+                    args.append({"k": "list", "v": [0.5, 1e-20, -2.5], "np": "f32"})
+                    args.append({"k": "tuple", "v": [1e-20, 0.0, -1e-20], "np": "f32"})
                 for a in args:
                     specs.append({"N": N, "c": 0, "ops": [make_gate(rng, g, N, SHAPE, list(qs), a)]})
         for g in NON_EXPORTABLE:
@@ -479,11 +556,26 @@ class C10(PropertyCheck):
             for q in range(2):
                 for s in range(max(c, 1)):
                     specs.append({"N": 2, "c": c, "ops": [{"m": [q], "s": s if c else None}]})
+        # parameter texts: a string-valued arg_value is printed through the same code (`str`, then `_qasm_real`
+        # where the source has it)
+        try:
+            text_params = qasm_tables.export_tables()["arg_test"] == "notNone"   # (a truthiness test looks at the object)
+        except Exception:
+            text_params = True
+        for g in ("RX", "CRZ") if text_params else ():
+            nc, nt, _ = SHAPE[g]
+            for t in PARAM_TEXTS:
+                op = make_gate(rng, g, N, SHAPE, list(range(nc + nt)), {"s": t, "np": False})
+                op["raw"] = True
+                specs.append({"N": N, "c": 0, "ops": [op]})
         texts = self._run_cases(ctx, res, specs, ["stream=exhaustive"])
         res.exhaustive = True
         res.notes.append("exhaustive: every exportable gate x every injective placement on 3 qubits x every special "
-                         "parameter value (zero, negative zero, negative, tiny, huge, ints, numpy floats) and container "
-                         "type (list, tuple, ndarray); every non-exportable gate alone and inside a circuit; measurements")
+                         "parameter value (zero, negative zero, negative, tiny, huge, ints, numpy float64/float32; values "
+                         "printed with a bare exponent: 1e-20, -1e-20, 5e-324, 1e+16, 1e+20) and container "
+                         "type (list, tuple, ndarray, bare exponents inside); %d parameter texts (signs, several e, "
+                         "empty mantissa, E) as string-valued parameters; every non-exportable gate alone and inside a "
+                         "circuit; measurements" % len(PARAM_TEXTS))
         # random circuits
         n_rand = 15000 if ctx.thorough else 400
         specs = [random_circuit(rng, allow_nonexp=0.04) for _ in range(n_rand)]
@@ -534,10 +626,19 @@ class C10(PropertyCheck):
         # witnesses found by the sweeps carry the mode they were evaluated in (measure lines repaired)
         return property_fails(w, lenient_measure=bool(w.get("_lenient_measure")))
 
-    def _sweep_ok(self, spec):
+    def _bare_exponent_excluded(self):
+        """True only on a tree whose `_qasm_str` is recognised as the variant WITHOUT `_qasm_real` (recorded
+        finding: `rx(1e-20)`); a tree with `_qasm_real`, or one the translator does not recognise, is swept strictly"""
+        try:
+            return qasm_tables.export_tables()["pads_exp"] is False
+        except Exception:
+            return False
+
+    def _sweep_ok(self, spec, bare_excluded):
         """inputs outside the recorded findings' classes (measure without ';' is repaired by the lenient
-        mode instead; numbers that Python prints without a decimal point are excluded)"""
-        return strict_number_texts(spec)
+        mode instead; numbers that Python prints without a decimal point are excluded on a tree without
+        `_qasm_real` only — theorem export_exponent_counterexample)"""
+        return (not bare_excluded) or strict_number_texts(spec)
 
     def _search_stream(self, ctx):
         rng = ctx.rng
@@ -545,8 +646,10 @@ class C10(PropertyCheck):
             nc, nt, ps = SHAPE[g]
             qs = list(range(nc + nt))
             args = [None] if ps is None else \
-                [{"s": v, "np": False} for v in (0, 0.0, -0.0, 0.5, -1.25, 1.5e-20, 2.5e+20, math.pi)] if ps == "s" else \
-                [{"k": k, "v": v} for k in ("list", "tuple", "ndarray") for v in ([0.1, 0.2, 0.3], [0.0, 0.0, 0.0])]
+                [{"s": v, "np": False} for v in (0, 0.0, -0.0, 0.5, -1.25, 1.5e-20, 2.5e+20, math.pi, *BARE_EXPONENT)] + \
+                [{"s": 1e-20, "np": True}] if ps == "s" else \
+                [{"k": k, "v": v} for k in ("list", "tuple", "ndarray")
+                 for v in ([0.1, 0.2, 0.3], [0.0, 0.0, 0.0], [1e-20, -1e-20, 1e16])]
             for a in args:
                 yield {"N": max(2, nc + nt), "c": 0, "ops": [make_gate(rng, g, 3, SHAPE, qs, a)]}
         for g in NON_EXPORTABLE:
@@ -557,10 +660,11 @@ class C10(PropertyCheck):
 
     def oracle_search(self, ctx, budget_s):
         t0 = time.time()
+        bare = self._bare_exponent_excluded()
         for spec in self._search_stream(ctx):
             if time.time() - t0 > budget_s:
                 return
-            if not self._sweep_ok(spec):
+            if not self._sweep_ok(spec, bare):
                 continue
             f, d = property_fails(spec, lenient_measure=True)
             if f:
@@ -568,11 +672,12 @@ class C10(PropertyCheck):
 
     def oracle_always(self, ctx):
         n = 0
+        bare = self._bare_exponent_excluded()
         for spec in self._search_stream(ctx):
             n += 1
-            if n > (3000 if ctx.thorough else 170):
+            if n > (3000 if ctx.thorough else 230):
                 return
-            if not self._sweep_ok(spec):
+            if not self._sweep_ok(spec, bare):
                 continue
             f, d = property_fails(spec, lenient_measure=True)
             if f:
